@@ -158,6 +158,29 @@ fn apply_knobs(rng: &mut Rng, m: &mut Module, rec: &mut Recorder) {
         }
         rec.bump("knob.empty_groups_and_functions");
     }
+    if rng.chance(1, 3) {
+        // an empty group that is the sub group of two (or three) other groups which have content of
+        // their own: all of them must drop the reference when the empty group is deleted
+        m.group.push(Group::new("zz_shared_empty_group".into(), "mk908".into()));
+        let member = m.measurement.iter().next().map(|x| x.get_name().to_string());
+        for k in 0..rng.urange(2, 3) {
+            let mut g = Group::new(format!("zz_parent_{k}"), format!("mk91{k}"));
+            g.root = Some(Root::new());
+            let mut sg = SubGroup::new();
+            if rng.coin() {
+                sg.identifier_list.push("zz_empty_group_that_does_not_exist".into());
+            }
+            sg.identifier_list.push("zz_shared_empty_group".into());
+            g.sub_group = Some(sg);
+            if let Some(name) = &member {
+                let mut rm = RefMeasurement::new();
+                rm.identifier_list.push(name.clone());
+                g.ref_measurement = Some(rm);
+            }
+            m.group.push(g);
+        }
+        rec.bump("knob.empty_group_shared_by_several_parents");
+    }
 }
 
 fn check_cleanup(rec: &mut Recorder, m0: &A2lFile, label: &str) {
@@ -419,6 +442,7 @@ pub fn run(args: &Args, rec: &mut Recorder) {
     rec.floor("knob.unused_helpers", 5);
     rec.floor("knob.dangling_references", 5);
     rec.floor("knob.empty_groups_and_functions", 5);
+    rec.floor("knob.empty_group_shared_by_several_parents", 5);
     rec.floor("consistent_inputs", 5);
     for k in ["COMPU_METHOD", "COMPU_VTAB", "UNIT", "RECORD_LAYOUT", "GROUP", "FUNCTION"] {
         rec.floor(&format!("removed.{k}"), 1);
